@@ -946,6 +946,11 @@ class Interp:
             self.event("unsupported", target, "store into non-name base")
             return
         arr = env.get(base.id)
+        if base.id not in env:
+            try:
+                arr = self.lookup_global(base.id, target)  # module-level container
+            except AnalysisError:
+                arr = None
         if isinstance(arr, Opaque):
             self.event("item-store", target, (base.id, self.eval(target.slice, env), v))
             return
